@@ -500,17 +500,23 @@ def match_shape(run):
     calls = [(t.get("resolved") or "") for b, t in T.region_calls(mw, reg)]
     cmpc = [(t.get("callee") or "") for b, t in T.region_calls(mw, reg)]
     has_tok = any(c.endswith("next_token") for c in calls) and any(c in ("std::cmp::PartialEq::ne", "std::cmp::PartialEq::eq") for c in cmpc)
-    uses_ws = False
+    kinds = set()
     for b, t in T.region_calls(mw, reg):
         for a in t["args"]:
-            if promoted_variant(prog, mw, a) == "Whitespace":
-                uses_ws = True
+            v = promoted_variant(prog, mw, a)
+            if v:
+                kinds.add(v)
     for b in reg:
         for st in mw.blocks[b]["stmts"]:
-            if st["k"] == "assign" and st["rv"]["k"] == "agg" and st["rv"].get("variant") == "Whitespace" and st["rv"].get("adt", "").endswith("TokenKind"):
-                uses_ws = True
+            if st["k"] == "assign" and st["rv"]["k"] == "agg" and st["rv"].get("adt", "").endswith("TokenKind") and st["rv"].get("variant"):
+                kinds.add(st["rv"]["variant"])
+    uses_ws = "Whitespace" in kinds
     run.check(has_tok and uses_ws, R, R + "|whitespace-part", mw.loc(), "whitespace pattern parts require a Whitespace token",
               "whitespace pattern parts no longer test for a Whitespace token")
+    # a block comment written where the pattern has a blank separates tokens as well (F38)
+    run.check(has_tok and kinds >= {"Whitespace", "Comment"} and not (kinds - {"Whitespace", "Comment"}), R, R + "|whitespace-part|comment-too", mw.loc(),
+              "a whitespace pattern part accepts a Whitespace or a Comment token, nothing else",
+              "a whitespace pattern part accepts the token kinds %s, expected exactly Whitespace and Comment: a block comment directly after a word (`add;*c*; 1`) would make the line fail to match (or another token kind would be taken for a separator)" % sorted(kinds))
     # selection independent of rule order: dedup, then keep only the maximum literal-part count
     names = [n for _, n in callee_names(mi)]
     run.check(any(n.endswith("InstructionMatch::is_same") for n in names), R, R + "|dedup", mi.loc(), "duplicate matches are removed with is_same", "duplicate removal (is_same) is gone")
